@@ -67,8 +67,9 @@ Definition chunksP {A : Type} (n : nat) (l : list A) : list (list A) := chunksP_
 
 (* the scripted permutations: optional reversal, then rotation to the left by r *)
 Definition rotl {A : Type} (r : nat) (l : list A) : list A := skipn r l ++ firstn r l.
+(* List.rev is quadratic; rev_append l [] is the same list (List.rev_alt) in linear time *)
 Definition perm_apply {A : Type} (sp : bool * nat) (l : list A) : list A :=
-  rotl (snd sp) (if fst sp then rev l else l).
+  rotl (snd sp) (if fst sp then rev_append l [] else l).
 (* ... as an answer of random.shuffle in the sense of Gen.arrange: the list of source positions *)
 Definition pi_of (sp : bool * nat) (n : nat) : list nat := perm_apply sp (seq 0 n).
 
